@@ -10,9 +10,12 @@
    a move never un-constructs its source.)
 
    Every primitive checks what the C++ requires and returns `Err` otherwise: MOMO_CHECK(index < count) of
-   operator[], MOMO_CHECK(count < capacity) of AddBackNogrow, reading a moved-from or raw slot as a value,
-   constructing into a non-raw slot, assigning into / destroying a raw slot.  So "= Ok ..." in a theorem
-   includes "no undefined behaviour, no failed check, no read of a moved-from element". *)
+   operator[], MOMO_CHECK(count < capacity) of AddBackNogrow, reading a raw slot, constructing into a non-raw
+   slot, assigning into / destroying a raw slot.  A moved-from object may legally be moved or copied again: the
+   result is then Moved too (the shifter does move moved-from elements, e.g. after Insert(i, std::move(a[j]))).
+   So "= Ok (arr_of ...)" in a theorem includes "no undefined behaviour, no failed check" and -- because every
+   resulting slot is Live with the specified value for ALL self_move / after_move -- "no self move-assignment
+   and no use of a moved-from or already shifted alias that could reach the result". *)
 From Coq Require Import List Arith Lia Bool.
 Import ListNotations.
 
@@ -56,33 +59,36 @@ Record arr := mkArr { cells : list cell; cnt : nat }.
 Definition cap (s : arr) : nat := length (cells s).
 Definition upd (s : arr) (i : nat) (c : cell) : arr := mkArr (set (cells s) i c) (cnt s).
 
-(* reading a slot as a value *)
-Definition live_at (c : list cell) (i : nat) : res V :=
-  match get c i with Live v => Ok v | Moved => Err EReadMoved | Raw => Err EReadRaw end.
-(* array[i] used as a value: operator[] has MOMO_CHECK(index < GetCount()) *)
-Definition item_at (s : arr) (i : nat) : res V :=
-  if i <? cnt s then live_at (cells s) i else Err EIndex.
-(* array[dst] = v  (array[dst] must be a constructed object) *)
-Definition assign_val (s : arr) (v : V) (dst : nat) : res arr :=
+(* the state of a constructed object: Some v = holds v, None = moved-from.  Reading a slot as an object: *)
+Definition obj_at (c : list cell) (i : nat) : res (option V) :=
+  match get c i with Live v => Ok (Some v) | Moved => Ok None | Raw => Err EReadRaw end.
+(* what a move leaves in its source / what a self move-assignment leaves *)
+Definition src_after (o : option V) : cell := match o with Some v => mcell (after_move v) | None => Moved end.
+Definition self_after (o : option V) : cell := match o with Some v => mcell (self_move v) | None => Moved end.
+(* array[i]: operator[] has MOMO_CHECK(index < GetCount()) *)
+Definition item_at (s : arr) (i : nat) : res (option V) :=
+  if i <? cnt s then obj_at (cells s) i else Err EIndex.
+(* array[dst] = o  (array[dst] must be a constructed object) *)
+Definition assign_val (s : arr) (o : option V) (dst : nat) : res arr :=
   if dst <? cnt s then
-    match get (cells s) dst with Raw => Err EAssignRaw | _ => Ok (upd s dst (Live v)) end
+    match get (cells s) dst with Raw => Err EAssignRaw | _ => Ok (upd s dst (mcell o)) end
   else Err EIndex.
-(* AddBackNogrow of a value: MOMO_CHECK(GetCount() < GetCapacity()); placement-new at items + count *)
-Definition add_back_ctor (s : arr) (v : V) : res arr :=
+(* AddBackNogrow of an object: MOMO_CHECK(GetCount() < GetCapacity()); placement-new at items + count *)
+Definition add_back_ctor (s : arr) (o : option V) : res arr :=
   if cnt s <? cap s then
     match get (cells s) (cnt s) with
-    | Raw => Ok (mkArr (set (cells s) (cnt s) (Live v)) (S (cnt s)))
+    | Raw => Ok (mkArr (set (cells s) (cnt s) (mcell o)) (S (cnt s)))
     | _ => Err ECtor
     end
   else Err ECap.
 (* array.AddBackNogrow(std::move(array[i])) *)
 Definition add_back_move_item (s : arr) (i : nat) : res arr :=
-  v <- item_at s i ;; s' <- add_back_ctor s v ;; Ok (upd s' i (mcell (after_move v))).
+  o <- item_at s i ;; s' <- add_back_ctor s o ;; Ok (upd s' i (src_after o)).
 (* ItemTraits::Assign(memManager, std::move(array[src]), array[dst])  i.e.  array[dst] = std::move(array[src]) *)
 Definition move_assign_items (s : arr) (src dst : nat) : res arr :=
-  v <- item_at s src ;;
-  if src =? dst then (if dst <? cnt s then Ok (upd s src (mcell (self_move v))) else Err EIndex)
-  else (s' <- assign_val s v dst ;; Ok (upd s' src (mcell (after_move v)))).
+  o <- item_at s src ;;
+  if src =? dst then (if dst <? cnt s then Ok (upd s src (self_after o)) else Err EIndex)
+  else (s' <- assign_val s o dst ;; Ok (upd s' src (src_after o))).
 
 (* pvRemoveBack: ItemTraits::Destroy(items + initCount - count, count); SetCount(initCount - count) *)
 Fixpoint destroy (c : list cell) (i k : nat) : res (list cell) :=
@@ -97,8 +103,8 @@ Definition remove_back (s : arr) (count : nat) : res arr :=
 (* ---- the value argument: a temporary / external object, or a reference to element i of this array,
         read at the moment the code reads it ---- *)
 Inductive arg := ArgVal (v : V) | ArgRef (i : nat).
-Definition read_arg (s : arr) (x : arg) : res V :=
-  match x with ArgVal v => Ok v | ArgRef i => live_at (cells s) i end.
+Definition read_arg (s : arr) (x : arg) : res (option V) :=
+  match x with ArgVal v => Ok (Some v) | ArgRef i => obj_at (cells s) i end.
 
 (* where the inserted values come from: [src_assign k dst] is `Assign(<k-th source>, array[dst])`,
    [src_push k] is `AddBackNogrow(<k-th source>)` *)
@@ -117,16 +123,15 @@ Definition source_range (xs : list arg) : source :=
 (* std::make_move_iterator(std::addressof(item)): the one rvalue of InsertNogrow(array, index, Item&&) *)
 Definition source_rvalue (x : arg) : source :=
   mkSource (fun _ dst s => match x with
-                           | ArgVal v => assign_val s v dst
+                           | ArgVal v => assign_val s (Some v) dst
                            | ArgRef i =>
-                             v <- live_at (cells s) i ;;
-                             if i =? dst then (if dst <? cnt s then Ok (upd s i (mcell (self_move v))) else Err EIndex)
-                             else (s' <- assign_val s v dst ;; Ok (upd s' i (mcell (after_move v))))
+                             o <- obj_at (cells s) i ;;
+                             if i =? dst then (if dst <? cnt s then Ok (upd s i (self_after o)) else Err EIndex)
+                             else (s' <- assign_val s o dst ;; Ok (upd s' i (src_after o)))
                            end)
            (fun _ s => match x with
-                       | ArgVal v => add_back_ctor s v
-                       | ArgRef i => v <- live_at (cells s) i ;; s' <- add_back_ctor s v ;;
-                                     Ok (upd s' i (mcell (after_move v)))
+                       | ArgVal v => add_back_ctor s (Some v)
+                       | ArgRef i => o <- obj_at (cells s) i ;; s' <- add_back_ctor s o ;; Ok (upd s' i (src_after o))
                        end).
 
 (* ---- ArrayShifter::InsertNogrow (ArrayUtility.h:196-224 and 226-260; both overloads have this shape,
@@ -166,11 +171,12 @@ Definition remove_range (fixed : bool) (s : arr) (index count : nat) : res arr :
   remove_back s1 count.                                              (* array.RemoveBack(count) *)
 
 (* ---- ArrayShifter::Remove(array, itemFilter)  (ArrayUtility.h:289-307); returns (array, remCount) ---- *)
+Definition holds (p : V -> bool) (o : option V) : bool := match o with Some v => p v | None => false end.
 Fixpoint skip_kept (fuel : nat) (p : V -> bool) (s : arr) (newCount : nat) : res nat :=
   (* while (newCount < initCount && !itemFilter(array[newCount])) ++newCount; *)
   match fuel with
   | O => Err EFuel
-  | S f => if newCount <? cnt s then (v <- item_at s newCount ;; if p v then Ok newCount else skip_kept f p s (S newCount))
+  | S f => if newCount <? cnt s then (v <- item_at s newCount ;; if holds p v then Ok newCount else skip_kept f p s (S newCount))
            else Ok newCount
   end.
 Definition remove_filter (p : V -> bool) (s : arr) : res (arr * nat) :=
@@ -180,7 +186,7 @@ Definition remove_filter (p : V -> bool) (s : arr) : res (arr * nat) :=
          (fun i (st : arr * nat) =>
             let (s, newCount) := st in
             v <- item_at s i ;;
-            if p v then Ok (s, newCount)                               (* continue *)
+            if holds p v then Ok (s, newCount)                         (* continue *)
             else (s' <- move_assign_items s i newCount ;; Ok (s', S newCount)))
          (s, newCount) ;;
   let (s1, newCount) := r in
